@@ -109,7 +109,13 @@ type extractor struct {
 	access []accessRec
 	// per function literal: its graph name
 	litName map[*ast.FuncLit]string
+	declOf  map[*ast.FuncLit]string // enclosing top-level function
+	litVar  map[litKey]string       // (enclosing function, variable) -> literal bound to it
+	declFor map[string]string       // graph name -> enclosing top-level function
+	export  map[string]bool         // graph name -> exported entry point
 }
+
+type litKey struct{ decl, name string }
 
 type accessRec struct {
 	field string
@@ -212,6 +218,22 @@ func (x *extractor) fieldOf(e ast.Expr) (string, bool) {
 	return n.Obj().Name() + "." + se.Sel.Name, true
 }
 
+// methodName: "Type.method" for methods of types declared in the package, else the bare method name
+func (x *extractor) methodName(se *ast.SelectorExpr) string {
+	if sel, ok := x.info.Selections[se]; ok && sel.Kind() == types.MethodVal {
+		recv := sel.Recv()
+		if p, ok := recv.(*types.Pointer); ok {
+			recv = p.Elem()
+		}
+		if n, ok := recv.(*types.Named); ok && n.Obj().Pkg() == x.pkg {
+			if _, isIface := n.Underlying().(*types.Interface); !isIface {
+				return n.Obj().Name() + "." + se.Sel.Name
+			}
+		}
+	}
+	return se.Sel.Name
+}
+
 type walker struct {
 	x    *extractor
 	fn   string
@@ -261,7 +283,18 @@ func (w *walker) expr(e ast.Expr, lhs bool) {
 		w.expr(e.X, false)
 		w.expr(e.Y, false)
 	case *ast.StarExpr:
-		w.expr(e.X, lhs)
+		w.expr(e.X, false)
+		if t := x.typeOf(e); t != nil {
+			if n, ok := t.(*types.Named); ok && n.Obj().Pkg() == x.pkg {
+				if _, isStruct := n.Underlying().(*types.Struct); isStruct {
+					if lhs {
+						w.emit(kWrite, n.Obj().Name()+".ALL", e.Pos())
+					} else {
+						w.emit(kRead, n.Obj().Name()+".ALL", e.Pos())
+					}
+				}
+			}
+		}
 	case *ast.IndexExpr:
 		w.expr(e.X, lhs)
 		w.expr(e.Index, false)
@@ -481,6 +514,9 @@ func (w *walker) call(c *ast.CallExpr) {
 		}
 		if sel, ok := x.info.Selections[se]; ok && sel.Kind() == types.FieldVal {
 			// calling a function-typed field, e.g. b.cancel(), item.work(resolve), b.cleaner.Cleaner(...)
+			if f, ok := x.fieldOf(se); ok {
+				w.emit(kRead, f, se.Pos())
+			}
 			if isNamed(sel.Type(), "context", "CancelFunc") {
 				w.emit(kCancelCall, p+"."+name, c.Pos())
 			} else {
@@ -488,7 +524,7 @@ func (w *walker) call(c *ast.CallExpr) {
 			}
 			return
 		}
-		w.emit(kCall, name, c.Pos())
+		w.emit(kCall, x.methodName(se), c.Pos())
 		return
 	}
 	// plain function calls
@@ -524,7 +560,12 @@ func (w *walker) stmt(n ast.Node) {
 	case *ast.ExprStmt:
 		w.expr(s.X, false)
 	case *ast.AssignStmt:
-		for _, r := range s.Rhs {
+		for i, r := range s.Rhs {
+			if lit, ok := r.(*ast.FuncLit); ok && i < len(s.Lhs) {
+				if id, ok := s.Lhs[i].(*ast.Ident); ok {
+					x.litVar[litKey{x.declOf[lit], id.Name}] = x.litName[lit]
+				}
+			}
 			w.expr(r, false)
 		}
 		for _, l := range s.Lhs {
@@ -547,7 +588,7 @@ func (w *walker) stmt(n ast.Node) {
 			target = x.litName[f]
 		case *ast.SelectorExpr:
 			w.expr(f.X, false)
-			target = f.Sel.Name
+			target = x.methodName(f)
 		case *ast.Ident:
 			target = f.Name
 		}
@@ -564,11 +605,21 @@ func (w *walker) stmt(n ast.Node) {
 		if gd, ok := s.Decl.(*ast.GenDecl); ok {
 			for _, sp := range gd.Specs {
 				if vs, ok := sp.(*ast.ValueSpec); ok {
-					for _, v := range vs.Values {
+					for i, v := range vs.Values {
+						if lit, ok := v.(*ast.FuncLit); ok && i < len(vs.Names) {
+							x.litVar[litKey{x.declOf[lit], vs.Names[i].Name}] = x.litName[lit]
+						}
 						w.expr(v, false)
 					}
 				}
 			}
+		}
+	case *ast.ValueSpec:
+		for i, v := range s.Values {
+			if lit, ok := v.(*ast.FuncLit); ok && i < len(s.Names) {
+				x.litVar[litKey{x.declOf[lit], s.Names[i].Name}] = x.litName[lit]
+			}
+			w.expr(v, false)
 		}
 	case *ast.RangeStmt:
 		w.expr(s.X, false)
@@ -793,7 +844,8 @@ func main() {
 		fmt.Fprintln(os.Stderr, "extract: type errors")
 		os.Exit(1)
 	}
-	x := &extractor{fset: fset, info: info, pkg: pkg, syms: map[string]int{}, litName: map[*ast.FuncLit]string{}}
+	x := &extractor{fset: fset, info: info, pkg: pkg, syms: map[string]int{}, litName: map[*ast.FuncLit]string{},
+		declOf: map[*ast.FuncLit]string{}, litVar: map[litKey]string{}, declFor: map[string]string{}, export: map[string]bool{}}
 	// name every function and literal first
 	type fnBody struct {
 		name string
@@ -823,12 +875,16 @@ func main() {
 				}
 			}
 			bodies = append(bodies, fnBody{name, fd.Body})
+			x.declFor[name] = name
+			x.export[name] = fd.Name.IsExported()
 			k := 0
 			ast.Inspect(fd.Body, func(n ast.Node) bool {
 				if lit, ok := n.(*ast.FuncLit); ok {
 					ln := fmt.Sprintf("%s$%d", name, k)
 					k++
 					x.litName[lit] = ln
+					x.declOf[lit] = name
+					x.declFor[ln] = name
 					bodies = append(bodies, fnBody{ln, lit.Body})
 				}
 				return true
@@ -892,6 +948,7 @@ func main() {
 	// intern all symbols first (sorted, so ids are stable under reordering of functions)
 	symset := map[string]bool{}
 	for _, g := range x.graphs {
+		symset[g.name] = true
 		for _, n := range g.nodes {
 			symset[n.ev.sym] = true
 		}
@@ -945,8 +1002,17 @@ func main() {
 		seen[ln] = true
 		fmt.Fprintf(&sb, "def %s : Nat := %d  -- %q\n", ln, x.syms[s], s)
 	}
-	sb.WriteString("end S\nend BB.Gen.Skel\n")
+	sb.WriteString("end S\n\ndef symNames : List (Nat × String) := [\n")
+	for i, s := range x.symLst {
+		sep := ","
+		if i == len(x.symLst)-1 {
+			sep = ""
+		}
+		fmt.Fprintf(&sb, "  (%d, %q)%s\n", i, s, sep)
+	}
+	sb.WriteString("]\nend BB.Gen.Skel\n")
 	os.MkdirAll(out, 0o755)
+	writeIfChanged(filepath.Join(out, "Access.lean"), x.accessTable())
 	writeIfChanged(filepath.Join(out, "Consts.lean"), cb.String())
 	writeIfChanged(filepath.Join(out, "Skel.lean"), sb.String())
 	fmt.Printf("extract: %d graphs, %d symbols\n", len(x.graphs), len(symsSorted))
@@ -981,3 +1047,297 @@ func writeIfChanged(path, content string) {
 	}
 	os.WriteFile(path, []byte(content), 0o644)
 }
+
+
+// ------------------------------------------------------------------------------------------------
+// lockset analysis (must-hold) and the field access table
+
+type lockset map[string]int // lock symbol -> 1 write / 2 read
+
+func (a lockset) clone() lockset {
+	b := lockset{}
+	for k, v := range a {
+		b[k] = v
+	}
+	return b
+}
+
+func meet(a, b lockset) lockset {
+	if a == nil {
+		return b.clone()
+	}
+	r := lockset{}
+	for k, v := range a {
+		if w, ok := b[k]; ok {
+			if w > v {
+				v = w // read is weaker than write
+			}
+			r[k] = v
+		}
+	}
+	return r
+}
+
+func sameLS(a, b lockset) bool {
+	if (a == nil) != (b == nil) || len(a) != len(b) {
+		return false
+	}
+	for k, v := range a {
+		if b[k] != v {
+			return false
+		}
+	}
+	return true
+}
+
+// locksets at the entry of every node of g, given the lockset at the graph's entry
+func (g *graph) flow(entry lockset) []lockset {
+	in := make([]lockset, len(g.nodes))
+	in[0] = entry.clone()
+	work := []int{0}
+	for len(work) > 0 {
+		i := work[0]
+		work = work[1:]
+		n := g.nodes[i]
+		out := in[i].clone()
+		switch n.ev.kind {
+		case kLock:
+			out[n.ev.sym] = 1
+		case kRLock:
+			if out[n.ev.sym] == 0 {
+				out[n.ev.sym] = 2
+			}
+		case kUnlock, kRUnlock:
+			delete(out, n.ev.sym)
+		case kCondWait:
+			// the locker is released and re-acquired: held again afterwards
+		}
+		for _, s := range n.succ {
+			m := meet(in[s], out)
+			if !sameLS(m, in[s]) {
+				in[s] = m
+				work = append(work, s)
+			}
+		}
+	}
+	return in
+}
+
+var syncCallees = map[string]bool{"WaitCond": true}
+
+func (x *extractor) accessTable() string {
+	byName := map[string]*graph{}
+	for _, g := range x.graphs {
+		byName[g.name] = g
+	}
+	// candidates for a bare callee name
+	resolve := func(from *graph, name string) *graph {
+		var found *graph
+		for _, g := range x.graphs {
+			if strings.Contains(g.name, "$") {
+				continue
+			}
+			if g.name == name || strings.HasSuffix(g.name, "."+name) {
+				if found != nil {
+					return nil // ambiguous
+				}
+				found = g
+			}
+		}
+		return found
+	}
+	entry := map[string]lockset{}
+	for _, g := range x.graphs {
+		entry[g.name] = nil // unknown (top)
+	}
+	for _, g := range x.graphs {
+		if x.export[g.name] || g.name == "init" {
+			entry[g.name] = lockset{}
+		}
+	}
+	contribute := func(name string, ls lockset) bool {
+		m := meet(entry[name], ls)
+		if !sameLS(m, entry[name]) {
+			entry[name] = m
+			return true
+		}
+		return false
+	}
+	referenced := map[string]bool{}
+	fix := func() {
+	for iter := 0; iter < 40; iter++ {
+		changed := false
+		for _, g := range x.graphs {
+			e := entry[g.name]
+			analysed := e != nil
+			if !analysed {
+				e = lockset{}
+			}
+			in := g.flow(e)
+			contributeIf := func(name string, ls lockset) bool {
+				referenced[name] = true
+				if !analysed {
+					return false
+				}
+				return contribute(name, ls)
+			}
+			for i, n := range g.nodes {
+				ls := in[i]
+				if ls == nil {
+					continue
+				}
+				switch n.ev.kind {
+				case kCall:
+					if callee := resolve(g, n.ev.sym); callee != nil && !x.export[callee.name] {
+						changed = contributeIf(callee.name, ls) || changed
+					}
+					if syncCallees[n.ev.sym] {
+						for j := i - 1; j >= 0 && j >= i-6; j-- {
+							if g.nodes[j].ev.kind == kLit {
+								changed = contributeIf(g.nodes[j].ev.sym, ls) || changed
+							}
+						}
+					}
+				case kOnceDo:
+					if i+1 < len(g.nodes) && g.nodes[i+1].ev.kind == kLit {
+						changed = contributeIf(g.nodes[i+1].ev.sym, ls) || changed
+					}
+				case kCallVar:
+					target := n.ev.sym
+					if lit, ok := x.litVar[litKey{x.declFor[g.name], target}]; ok {
+						target = lit
+					}
+					if _, ok := byName[target]; ok {
+						changed = contributeIf(target, ls) || changed
+					}
+				case kGo:
+					target := n.ev.sym
+					if callee := resolve(g, target); callee != nil {
+						target = callee.name
+					}
+					if _, ok := byName[target]; ok {
+						hand := lockset{}
+						for l, mode := range ls {
+							acquiredHere := false
+							for _, m := range g.nodes {
+								if (m.ev.kind == kLock || m.ev.kind == kRLock) && m.ev.sym == l {
+									acquiredHere = true
+								}
+							}
+							if !acquiredHere {
+								continue // held by a caller: the caller releases it, nothing is handed to the goroutine
+							}
+							released := false
+							seen := map[int]bool{}
+							var dfs func(k int)
+							dfs = func(k int) {
+								if seen[k] || released {
+									return
+								}
+								seen[k] = true
+								m := g.nodes[k]
+								if (m.ev.kind == kUnlock || m.ev.kind == kRUnlock) && m.ev.sym == l {
+									released = true
+									return
+								}
+								for _, s := range m.succ {
+									dfs(s)
+								}
+							}
+							for _, s := range n.succ {
+								dfs(s)
+							}
+							if !released {
+								hand[l] = mode
+							}
+						}
+						changed = contributeIf(target, hand) || changed
+					}
+				}
+			}
+		}
+		if !changed {
+			break
+		}
+	}
+	}
+	for round := 0; round < 20; round++ {
+		fix()
+		// graphs nobody refers to in a way that determines their lockset start with nothing held
+		progress := false
+		for _, g := range x.graphs {
+			if entry[g.name] == nil && !referenced[g.name] {
+				entry[g.name] = lockset{}
+				progress = true
+			}
+		}
+		if !progress {
+			break
+		}
+	}
+	if os.Getenv("EXTRACT_DEBUG") != "" {
+		for _, g := range x.graphs {
+			fmt.Fprintf(os.Stderr, "entry %s = %v\n", g.name, entry[g.name])
+		}
+	}
+	var sb strings.Builder
+	sb.WriteString("/- GENERATED by /verif/go/cmd/extract from /repo — do not edit.\n   One record per field access of a struct declared in the package: field, write?, function, locks held (lock, 1 = write / 2 = read). -/\nimport BB.Core.Lockset\nnamespace BB.Gen.Access\nopen BB.Lockset\n\ndef table : List Access := [\n")
+	first := true
+	var recs [][2]string
+	for _, g := range x.graphs {
+		e := entry[g.name]
+		unreached := e == nil
+		if unreached {
+			e = lockset{} // never called from inside the package with a known lockset: assume nothing held
+		}
+		in := g.flow(e)
+		for i, n := range g.nodes {
+			if n.ev.kind != kRead && n.ev.kind != kWrite {
+				continue
+			}
+			ls := in[i]
+			var locks []string
+			var keys []string
+			for k := range ls {
+				keys = append(keys, k)
+			}
+			sort.Strings(keys)
+			for _, k := range keys {
+				locks = append(locks, fmt.Sprintf("(%d, %d)", x.syms[k], ls[k]))
+			}
+			w := "false"
+			if n.ev.kind == kWrite {
+				w = "true"
+			}
+			first = false
+			var lnames []string
+			for _, k := range keys {
+				lnames = append(lnames, fmt.Sprintf("%s:%d", k, ls[k]))
+			}
+			recs = append(recs, [2]string{fmt.Sprintf("  ⟨%d, %s, %d, [%s]⟩", x.syms[n.ev.sym], w, x.sym(g.name), strings.Join(locks, ", ")),
+				fmt.Sprintf("  -- %s %s in %s holding {%s}", kindNames[n.ev.kind], n.ev.sym, g.name, strings.Join(lnames, " "))})
+		}
+	}
+	_ = first
+	for i, r := range recs {
+		sep := ","
+		if i == len(recs)-1 {
+			sep = ""
+		}
+		sb.WriteString(r[0] + sep + r[1] + "\n")
+	}
+	sb.WriteString("]\n\n/- function symbols -/\nnamespace F\n")
+	seen := map[string]bool{}
+	for _, g := range x.graphs {
+		ln := lname(g.name)
+		for seen[ln] {
+			ln += "'"
+		}
+		seen[ln] = true
+		fmt.Fprintf(&sb, "def %s : Nat := %d  -- %q\n", ln, x.sym(g.name), g.name)
+	}
+	sb.WriteString("end F\nend BB.Gen.Access\n")
+	return sb.String()
+}
+
+func (e event) callDeferredAsync() bool { return false }
